@@ -29,81 +29,7 @@ global size_of usize == 8;
 // =====================================================================================================
 //@@ DEVIATIONS
 
-// =====================================================================================================
-// Specification, written from ISO 32000-1:2008
-// =====================================================================================================
-// 7.2.2 Table 1: NUL, HT, LF, FF, CR, SP
-pub open spec fn is_ws_iso(b: u8) -> bool { b == 0 || b == 9 || b == 10 || b == 12 || b == 13 || b == 32 }
-pub open spec fn is_ws(b: u8) -> bool { is_ws_iso(b) && !(DEV_FORMFEED_NOT_WHITESPACE() && b == 12) }
-// 7.2.2 Table 2: ( ) < > [ ] { } / %
-pub open spec fn is_delim(b: u8) -> bool { b == 40 || b == 41 || b == 60 || b == 62 || b == 91 || b == 93 || b == 123 || b == 125 || b == 47 || b == 37 }
-// 7.2.2: "all characters except the white-space characters and delimiters are referred to as regular characters"
-pub open spec fn is_reg(b: u8) -> bool { !is_ws(b) && !is_delim(b) }
-// 7.2.2: CR and LF are the end-of-line markers; 7.2.3: a comment runs "up to but not including the end of the line"
-pub open spec fn is_eol(b: u8) -> bool { b == 10 || (b == 13 && !DEV_COMMENT_EOL_LF_ONLY()) }
-
-pub open spec fn ws_end(buf: Seq<u8>, p: int) -> int decreases buf.len() - p {
-    if 0 <= p < buf.len() && is_ws(buf[p]) { ws_end(buf, p + 1) } else { p }
-}
-pub open spec fn reg_end(buf: Seq<u8>, p: int) -> int decreases buf.len() - p {
-    if 0 <= p < buf.len() && is_reg(buf[p]) { reg_end(buf, p + 1) } else { p }
-}
-// index just past the first EOL byte at or after p; None if the line never ends
-pub open spec fn eol_after(buf: Seq<u8>, p: int) -> Option<int> decreases buf.len() - p {
-    if p < 0 || p >= buf.len() { None } else if is_eol(buf[p]) { Some(p + 1) } else { eol_after(buf, p + 1) }
-}
-// 7.2.3: first byte of the next token at or after p: white-space and comments are skipped ("the comment ... shall be
-// treated as a single white-space character"); None = no token before the end of the data.
-pub open spec fn token_start(buf: Seq<u8>, p: int) -> Option<int> decreases buf.len() - p {
-    let q = ws_end(buf, p);
-    if p < 0 || q < p || q >= buf.len() { None }
-    else if buf[q] == 37 {
-        match eol_after(buf, q + 1) {
-            Some(e) => if p < e <= buf.len() { token_start(buf, e) } else { None },
-            // a comment that is still open at the end of the data contains no token ...
-            None => if DEV_UNTERMINATED_COMMENT_IS_LEXED() { token_start(buf, q + 1) } else { None },
-        }
-    } else { Some(q) }
-}
-// 7.2.2: a delimiter is a token by itself, except `<<` `>>` (7.3.7) and `/` which introduces a name that extends
-// over the following regular characters (7.3.5); otherwise the token is the maximal run of regular characters.
-pub open spec fn token_end(buf: Seq<u8>, s: int) -> int {
-    if is_delim(buf[s]) {
-        if buf[s] == 47 { reg_end(buf, s + 1) }
-        else if s + 1 < buf.len() && ((buf[s] == 60 && buf[s+1] == 60) || (buf[s] == 62 && buf[s+1] == 62)) { s + 2 }
-        else { s + 1 }
-    } else { reg_end(buf, s) }
-}
-
-// 7.3.8.1: "The keyword stream that follows the stream dictionary shall be followed by an end-of-line marker
-// consisting of either a CARRIAGE RETURN and a LINE FEED or just a LINE FEED, and not by a CARRIAGE RETURN alone."
-// k = index of the `s` of the keyword; result = index of the first byte of stream data.
-pub open spec fn stream_data_start(buf: Seq<u8>, k: int) -> Option<int> {
-    if k + 6 < buf.len() && buf[k + 6] == 10 { Some(k + 7) }
-    else if k + 7 < buf.len() && buf[k + 6] == 13 && buf[k + 7] == 10 { Some(k + 8) }
-    else { None }
-}
-// where the keyword is: the next token (comments skipped, 7.2.3)
-pub open spec fn stream_kw_pos(buf: Seq<u8>, p: int) -> Option<int> {
-    if DEV_STREAM_KEYWORD_COMMENT_NOT_SKIPPED() { let q = ws_end(buf, p); if p <= q < buf.len() { Some(q) } else { None } }
-    else { token_start(buf, p) }
-}
-
-// 7.3.3 numbers:  integer = [+-]? d+      real = [+-]? ( d+ | d+ . d* | . d+ )
-pub open spec fn digit(b: u8) -> bool { 48 <= b <= 57 }
-pub open spec fn all_digits(s: Seq<u8>) -> bool { forall|i: int| 0 <= i < s.len() ==> digit(#[trigger] s[i]) }
-pub open spec fn sign_len(s: Seq<u8>) -> int { if s.len() > 0 && (s[0] == 45 || (!DEV_NO_PLUS_SIGN() && s[0] == 43)) { 1 } else { 0 } }
-pub open spec fn is_int_lit(s: Seq<u8>) -> bool {
-    let k = sign_len(s);
-    s.len() > k && all_digits(s.subrange(k, s.len() as int))
-}
-// unsigned part of a real: d+ | d+.d* | .d+   (equivalently: digits with at most one '.', at least one digit)
-pub open spec fn is_ureal(t: Seq<u8>) -> bool {
-    all_digits(t) && t.len() > 0
-    || exists|i: int| 0 <= i < t.len() && #[trigger] t[i] == 46 && all_digits(t.subrange(0, i)) && all_digits(t.subrange(i + 1, t.len() as int))
-        && (t.len() > 1 || DEV_LONE_DOT_IS_REAL())
-}
-pub open spec fn is_real_lit(s: Seq<u8>) -> bool { is_ureal(s.subrange(sign_len(s), s.len() as int)) }
+//@@ INCLUDE lexer/spec/l1_tokens_numbers.rs
 
 // ---- lemmas -------------------------------------------------------------------------------------------
 pub proof fn lemma_ws_end(buf: Seq<u8>, p: int)
